@@ -2435,7 +2435,7 @@ pub (crate) fn bid128_ext_fma(
                                 // in order to round, subtract R64 from 10^34 and then compare
                                 // C4 - R64 * 10^(q4-1) with 1/2 ulp
                                 // calculate 10^34 - R64
-                                res.w[1] = 0x0001ed09bead87c0u64;
+                                res.w[1] = z_sign | 0x0001ed09bead87c0u64;
                                 res.w[0] = 0x378d8e6400000000u64 - R64;
                                 z_exp   -= EXP_P1; // will be OR-ed with sign & significand
                                 // calculate C4 - R64 * 10^(q4-1); this is a rare case and
